@@ -24,12 +24,15 @@ VARIABLES route,     \* model name -> "default" | "other" | "both"
           evo,       \* the evolution: sequence of mutations
           target,    \* the models after the evolution (what models.py says)
           order,     \* databases in the order they are evolved
+          oneProc,   \* TRUE: both databases are evolved by ONE process, one Evolver after the other (the
+                     \* evolution modules, and the mutation objects in them, are shared); FALSE: a process
+                     \* each.  What happens to either database is the same.
           db,        \* database -> model name -> [fields, maxlen]  (tables)
           sig,       \* database -> set of model names in the stored signature
           recorded,  \* database -> has the evolution been recorded as applied
           phase, done
 
-vars == <<route, catchAll, evo, target, order, db, sig, recorded, phase, done>>
+vars == <<route, catchAll, evo, target, order, oneProc, db, sig, recorded, phase, done>>
 
 Models == {"A", "B", "C"}
 DBs == {"default", "other"}
@@ -40,6 +43,8 @@ Mutations == { [k |-> "add", m |-> m] : m \in Models }        \* AddField(m, 'x'
              \cup { [k |-> "chg", m |-> m] : m \in Models }    \* ChangeField(m, 'name', max_length=30)
              \cup { [k |-> "ren", m |-> m] : m \in Models }    \* RenameModel(m, m2, db_table=...)
              \cup { [k |-> "del", m |-> m] : m \in Models }    \* DeleteModel(m)
+             \cup { [k |-> "delapp", m |-> "*"] }                 \* DeleteApplication(): on each database, the
+                                                                 \* models of the app that live there
              \cup { [k |-> "add", m |-> NewName(m)] : m \in Models }
              \cup { [k |-> "chg", m |-> NewName(m)] : m \in Models }
 
@@ -52,9 +57,11 @@ Apply(ms, mu) ==
       [] mu.k = "chg" -> [ms EXCEPT ![mu.m].maxlen = 30]
       [] mu.k = "ren" -> [n \in ((DOMAIN ms) \ {mu.m}) \cup {NewName(mu.m)} |->
                             IF n = NewName(mu.m) THEN ms[mu.m] ELSE ms[n]]
+      [] mu.k = "delapp" -> [n \in {} |-> Fresh]
       [] OTHER -> [n \in (DOMAIN ms) \ {mu.m} |-> ms[n]]
 Valid(ms, mu) ==
-    /\ mu.m \in DOMAIN ms
+    /\ (mu.k = "delapp" => DOMAIN ms # {})
+    /\ (mu.k # "delapp" => mu.m \in DOMAIN ms)
     /\ (mu.k = "add" => "x" \notin ms[mu.m].fields)
     /\ (mu.k = "chg" => ms[mu.m].maxlen = 20)
     /\ (mu.k = "ren" => mu.m \in Models)
@@ -70,6 +77,7 @@ On(r, m, d) == RouteOf(r, m) = d \/ RouteOf(r, m) = "both"      \* schema of m i
 
 Init == /\ route \in [Models -> Routes]
         /\ catchAll \in BOOLEAN
+        /\ oneProc \in BOOLEAN
         /\ order \in { <<"default", "other">>, <<"other", "default">> }
         /\ evo = <<>> /\ target = All0
         /\ db = [d \in DBs |-> Only(All0, route, d)]
@@ -79,14 +87,15 @@ Init == /\ route \in [Models -> Routes]
 
 Extend(mu) == /\ phase = "build" /\ Len(evo) < MaxLen /\ Valid(target, mu)
               /\ evo' = Append(evo, mu) /\ target' = Apply(target, mu)
-              /\ UNCHANGED <<route, catchAll, order, db, sig, recorded, phase, done>>
+              /\ UNCHANGED <<route, catchAll, order, oneProc, db, sig, recorded, phase, done>>
 Deploy == /\ phase = "build" /\ evo # <<>> /\ phase' = "evolve"
-          /\ UNCHANGED <<route, catchAll, evo, target, order, db, sig, recorded, done>>
+          /\ UNCHANGED <<route, catchAll, evo, target, order, oneProc, db, sig, recorded, done>>
 
 (* the mutations that concern database d, in order *)
 RECURSIVE Mine(_, _, _)
 Mine(seq, r, d) == IF seq = <<>> THEN <<>>
-                   ELSE (IF RouteOf(r, Head(seq).m) \in {d, "both"} THEN <<Head(seq)>> ELSE <<>>)
+                   ELSE (IF Head(seq).k = "delapp" \/ RouteOf(r, Head(seq).m) \in {d, "both"}
+                         THEN <<Head(seq)>> ELSE <<>>)
                         \o Mine(Tail(seq), r, d)
 
 Evolve(d) == /\ phase = "evolve" /\ Len(done) < Len(order) /\ order[Len(done) + 1] = d
@@ -94,7 +103,7 @@ Evolve(d) == /\ phase = "evolve" /\ Len(done) < Len(order) /\ order[Len(done) + 
              /\ sig' = [sig EXCEPT ![d] = DOMAIN db'[d]]
              /\ recorded' = [recorded EXCEPT ![d] = TRUE]
              /\ done' = Append(done, d)
-             /\ UNCHANGED <<route, catchAll, evo, target, order, phase>>
+             /\ UNCHANGED <<route, catchAll, evo, target, order, oneProc, phase>>
 
 Next == (\E mu \in Mutations : Extend(mu)) \/ Deploy \/ (\E d \in DBs : Evolve(d))
 Spec == Init /\ [][Next]_vars
@@ -111,7 +120,7 @@ Converged == (Len(done) = 2) =>
                 \A d \in DBs : db[d] = Only(target, route, d) /\ sig[d] = DOMAIN db[d]
 
 Emit == (EmitRecords /\ phase = "evolve" /\ Len(done) = 2) =>
-          PrintT(<<"REC", ToJson([route |-> route, catchAll |-> catchAll, evo |-> evo, order |-> order,
+          PrintT(<<"REC", ToJson([route |-> route, catchAll |-> catchAll, oneProc |-> oneProc, evo |-> evo, order |-> order,
                                    expected |-> [d \in DBs |-> [n \in DOMAIN db[d] |->
                                         [fields |-> db[d][n].fields, maxlen |-> db[d][n].maxlen]]]])>>)
 Constraint == Emit
